@@ -167,7 +167,7 @@ def run_data(place, size):
                     k = size - len('{"a":"","b":[1,2,3],"c":{"d":null}}')
                     text = '{"a":"%s","b":[1,2,3],"c":{"d":null}}' % ("a" * k)
                 else:
-                    core = '{ "a" : [ 1 , 2 ] ,\n  "b" : "%s" }' % ("b" * 1000)
+                    core = '{ "a" : [ 1 , 2 ] ,\n  "b" : "%s" }' % ("b" * min(1000, max(0, size - 40)))
                     text = core + " " * (size - len(core) - 1) + "\n"
                 if len(text) != size or json.loads(text) is None:
                     raise HarnessError("reply text construction for %s" % place)
